@@ -17,6 +17,7 @@ CONSTANTS
   Horizon = 400
   Fx <- FxAll
   Assume = TRUE
+  CancelAts = {}
 INVARIANT NoViolation
 INVARIANT NoHang
 INVARIANT TimeBounded
